@@ -13,8 +13,8 @@ CONSTANTS
   ServiceChecks = TRUE
   RestoreOnAhead = TRUE
   RestoreOnMismatch = TRUE
-  FixPosZero = FALSE
-  ExcusePosZero = TRUE
+  FixPosZero = TRUE
+  ExcusePosZero = FALSE
   Emit = FALSE
 VIEW view
 INVARIANTS TypeOK ChainContig Progress RetentionSafe HwmAcked EmitInv
